@@ -22,6 +22,7 @@ func facts() {
 	colorFacts()
 	statsFacts()
 	queryFacts()
+	sessionFacts()
 	// ---- protocol constants
 	const proto = "internal/protocol/protocol.go"
 	if v, n := findConst(proto, "MessageDelimiter"); v != nil {
@@ -243,6 +244,85 @@ func queryFacts() {
 		defNat("rotationRequeueSends", constant.MakeInt64(int64(sends)), pos(fn)+" nextLine: sends into NextLinesCh")
 		defBool("rotationRequeueAsync", sends > 0 && sends == async, pos(fn)+" nextLine: every such send is inside a go statement")
 	}
+}
+
+// the close handshake of a server session (C02)
+func sessionFacts() {
+	const bh = "internal/server/handlers/basehandler.go"
+	fn := findFunc(bh, "baseHandler", "flush")
+	if fn == nil {
+		return
+	}
+	// flush() is a loop without bound that polls with a fresh timer (or sleep) on every round:
+	// it can only leave when nothing is unsent any more or the session is gone
+	var loop *ast.ForStmt
+	ast.Inspect(fn.Body, func(x ast.Node) bool {
+		if f, ok := x.(*ast.ForStmt); ok && loop == nil {
+			loop = f
+		}
+		return loop == nil
+	})
+	if loop == nil {
+		problem("flush(): no for loop found")
+		return
+	}
+	defBool("flushLoopUnbounded", loop.Init == nil && loop.Cond == nil && loop.Post == nil, pos(loop)+" flush: for { ... } without condition")
+	fresh := false
+	ast.Inspect(loop.Body, func(x ast.Node) bool {
+		switch v := x.(type) {
+		case *ast.CommClause:
+			if es, ok := v.Comm.(*ast.ExprStmt); ok {
+				if u, ok := es.X.(*ast.UnaryExpr); ok && u.Op == token.ARROW {
+					if c, ok := u.X.(*ast.CallExpr); ok && (src(c.Fun) == "time.After" || src(c.Fun) == "time.Tick") {
+						fresh = true
+					}
+				}
+			}
+		case *ast.CallExpr:
+			if src(v.Fun) == "time.Sleep" {
+				fresh = true
+			}
+		}
+		return true
+	})
+	defBool("flushRepollsFreshTimer", fresh, pos(loop)+" flush: every round waits on a timer created in that round")
+	// the only ways out of the loop: `return` statements; each is guarded by the emptiness test or
+	// by the session's done channel
+	returns, guarded := 0, 0
+	var walk func(n ast.Node, ok bool)
+	walk = func(n ast.Node, ok bool) {
+		ast.Inspect(n, func(x ast.Node) bool {
+			switch v := x.(type) {
+			case *ast.IfStmt:
+				g := ok || strings.Contains(src(v.Cond), "numUnsentMessages() == 0")
+				walk(v.Body, g)
+				if v.Else != nil {
+					walk(v.Else, ok)
+				}
+				return false
+			case *ast.CommClause:
+				g := ok
+				if v.Comm != nil && strings.Contains(src(v.Comm), "done.Done()") {
+					g = true
+				}
+				for _, st := range v.Body {
+					walk(st, g)
+				}
+				return false
+			case *ast.ReturnStmt, *ast.BranchStmt:
+				if b, isB := v.(*ast.BranchStmt); isB && b.Tok != token.BREAK {
+					return true
+				}
+				returns++
+				if ok {
+					guarded++
+				}
+			}
+			return true
+		})
+	}
+	walk(loop.Body, false)
+	defBool("flushLeavesOnlyWhenDrainedOrGone", returns > 0 && returns == guarded, pos(loop)+" flush: every return/break is under `numUnsentMessages() == 0` or `<-h.done.Done()`")
 }
 
 // colour constants and the default colour table (C16)
